@@ -17,7 +17,7 @@ func init() {
 			}
 			g := map[string]int{"vhMaxSteps": steps, "vhNExec": nexec}
 			var blocks []Oblig
-			for op := 0; op <= 5; op++ {
+			for op := 0; op <= 6; op++ {
 				blocks = append(blocks, Oblig{Harness: "vh_C09_block", Globals: map[string]int{"vhBlockOp": op}, Unroll: 8})
 			}
 			return append(blocks, []Oblig{
